@@ -84,8 +84,12 @@ func (p *pendingRequests) loadAndDelete(stream int16) Request {
 
 func (p *pendingRequests) closing(err error) {
 	p.pending.Range(func(key, value interface{}) bool {
-		request := value.(Request)
-		request.OnClose(err)
+		// Only notify requests that are still pending: a request whose write failed is removed by the sender, which
+		// then reports the error to its caller instead
+		if _, ok := p.pending.LoadAndDelete(key); ok {
+			request := value.(Request)
+			request.OnClose(err)
+		}
 		return true
 	})
 }
